@@ -7,7 +7,9 @@ PROTOS = ['quake']
 
 
 def more(tier, seed, w, v, lay, tp):
-    return [], []
+    """QuakeText.tla: the two text grammars as pure functions; every short variables fragment / player line (exhaustive over a
+    boundary alphabet) replayed through quake::{one,two,three}::query"""
+    return quake_text(PID, tier, w, v)
 
 
 def run(tier, seed):
